@@ -204,11 +204,28 @@ def structs_eq(a, b):
 
 
 # ------------------------------------------------------------------------------- fixtures
-def fixture(eng, params, prefixes_without_delim=True):
-    """Symbolic strict converter: records of params['shape'], delimiter ':' or symbolic."""
+def fixture(eng, params, prefixes_without_delim=True, warm=None):
+    """Symbolic strict converter: records of params['shape'], delimiter ':' or symbolic.
+    params['built'] == 'merge': the same converter is reached through the incremental path - constructed without the
+    last synonym of each kind, queried (`warm`, so that any state remembered from queries is in place), then completed
+    with add_prefix(..., merge=True)."""
     recs = mk_recs(eng, params["shape"])
     assume_strict(eng, recs)
     delim = get_delim(eng, params.get("symdelim", False), recs, no_delim_in_prefixes=False)
+    if params.get("built") == "merge":
+        if prefixes_without_delim:
+            eng.assume(And([first_occurrence(p, delim) for p in all_p(recs)]))
+        api = eng.mods.api
+        base = [Rec(r.prefix, r.uri_prefix, r.psyn[:-1], r.usyn[:-1], r.pattern) for r in recs]
+        c = api.Converter([api.Record(**r.kwargs()) for r in base], delimiter=delim)
+        if warm is not None:
+            warm(c)
+        for r in recs:
+            if r.psyn:
+                c.add_prefix(r.psyn[-1], r.uri_prefix, merge=True)
+            if r.usyn:
+                c.add_prefix(r.prefix, r.usyn[-1], merge=True)
+        return recs, delim, c
     if prefixes_without_delim:
         # quantifier precondition "no CURIE prefix contains the delimiter"; for a multi-character delimiter this is
         # read as "prefix ++ delimiter contains the delimiter only at its end" (otherwise the CURIE syntax itself is
